@@ -6,6 +6,15 @@ import os
 V = os.path.dirname(os.path.dirname(os.path.abspath(__file__)))
 
 CHECKS = {
+    "C01": dict(
+        technique="bounded-exhaustive product exploration (subject x config<=k deviations x parameter pattern x deviation-bounded input rows) with an independent float64 finite-difference Jacobian oracle",
+        text="Every Transform class (plus the bare spline functions with non-default boxes and wrapper programs) is built in every configuration with <=1 (thorough <=2) "
+        "deviations from its default constructor arguments, under 3-4 deterministic parameter patterns (fresh, all-zero, two quasi-random), and evaluated on rows that put "
+        "each coordinate in turn on every cell of its alphabet (knots, ulp neighbours, end-points, tail junction, far tails). The returned log-abs-det must equal log|det J| of "
+        "the real forward obtained by 4th-order finite differences with a step-size ladder; at kinks it must lie between the one-sided values.",
+        note="FD certifies 1e-6*D; rows where step sizes disagree are skipped and counted; UMNN judged with its declared quadrature tolerance; eval mode, float64",
+        ref="DESIGN.md 4/C01",
+    ),
     "C10": dict(
         technique="stateless exhaustive exploration of all operation histories up to a depth on the real objects (replay from the empty history) + explicit-state BFS with exact state hashing to the fixpoint; oracle = uncached twin rebuilt from state_dict after every observing step",
         text="All histories over a 12-letter (thorough: 14) operation alphabet up to depth 4 (thorough: 5, and 6 on a 9-letter alphabet) are executed on "
